@@ -7,14 +7,12 @@ from io import BytesIO
 from lib.driver import Run
 
 sys.path.insert(0, os.path.join(os.path.dirname(os.path.dirname(os.path.abspath(__file__))), "pyref", "vendored"))
-from test_framework import psbt as _psbt  # noqa: E402  (vendored generic PSBT map parser, independent of src/psbt.h)
-from test_framework.messages import from_binary  # noqa: E402
 from pyref import bip370  # noqa: E402
 
 ID = "C47"
 LEVEL = "exploration"
-TECHNIQUE = ("online round-trip / combine / finalize monitors over an own byte-level PSBT builder, record-level comparison with an independent "
-             "Python PSBT map parser, own BIP370 locktime reference, independent script verification of extracted transactions; ASan+UBSan")
+TECHNIQUE = ("online round-trip / combine / finalize monitors over an own byte-level PSBT builder, record-level comparison with an own "
+             "Python PSBT map reader, own BIP370 locktime reference, independent script verification of extracted transactions; ASan+UBSan")
 RULE = ("round trip: one PSBT per case from an own record-level builder (v0 or v2; 0-4 inputs, 0-3 outputs; every global/input/output field "
         "type of src/psbt.h incl. taproot and MuSig2 fields, xpubs, unknown single- and multi-byte types, proprietary records; records in "
         "random order; v2 required time/height locktimes in all combinations; classes: canonical, non-canonical spellings (explicit version 0, "
@@ -48,7 +46,7 @@ REQUIRED = ["generated_accepted", "v0_psbts", "v2_psbts", "mutants_accepted", "m
             "taproot_inputs_verified", "hostile:garbage_final_scriptsig", "hostile:garbage_final_witness", "hostile:byte_mutation", "hostile:none",
             ] + ["feat:" + f for f in FIELD_FEATS]
 LEVEL_TEXT = "held on the generated and mutated PSBTs and the generated spends"
-LEVEL_NOTE = "trusted: the harness's record builder and field dump, the vendored Python map parser, the interpreter"
+LEVEL_NOTE = "trusted: the harness's record builder and field dump, the own Python map reader, the interpreter"
 
 
 def runs(tier, seed):
@@ -59,9 +57,40 @@ def runs(tier, seed):
             Run("c47_fin", cases=3200, params={"maxdepth": 3}, timeout=900, name="finalize")]
 
 
+def _cs(f):
+    b = f.read(1)
+    if len(b) != 1:
+        raise ValueError("eof")
+    n = b[0]
+    if n < 253:
+        return n
+    w = {253: 2, 254: 4, 255: 8}[n]
+    d = f.read(w)
+    if len(d) != w:
+        raise ValueError("eof")
+    return int.from_bytes(d, "little")
+
+
 def _maps(raw):
-    p = from_binary(_psbt.PSBT, raw)
-    return [dict(p.g.map)] + [dict(m.map) for m in p.i] + [dict(m.map) for m in p.o], len(p.i), len(p.o)
+    """Own generic PSBT reader: the list of key->value maps (global, inputs..., outputs...) in file order. It needs no
+    knowledge of field types (and does not parse the unsigned transaction, which is ambiguous for zero-input transactions)."""
+    f = BytesIO(raw)
+    if f.read(5) != b"psbt\xff":
+        raise ValueError("magic")
+    maps = []
+    while f.tell() < len(raw):
+        m = {}
+        while True:
+            kl = _cs(f)
+            if kl == 0:
+                break
+            k = f.read(kl)
+            v = f.read(_cs(f))
+            if k in m:
+                raise ValueError("duplicate key")
+            m[k] = v
+        maps.append(m)
+    return maps
 
 
 def _check_lock(lock, st, case, what):
@@ -107,15 +136,17 @@ def _check_rt(rec, st):
     if "lock_mut" in rec:
         _check_lock(rec["lock_mut"], st, rec["case"], "mutated")
     if "psbt" in rec and "reenc" in rec:
-        a, nin, nout = _maps(bytes.fromhex(rec["psbt"]))
-        b, nin2, nout2 = _maps(bytes.fromhex(rec["reenc"]))
+        a = _maps(bytes.fromhex(rec["psbt"]))
+        b = _maps(bytes.fromhex(rec["reenc"]))
         st.seen("canonical_compared")
-        if (nin, nout) != (nin2, nout2) or a != b:
+        if len(a) != 1 + rec["nin"] + rec["nout"]:
+            st.violation("reference-self-check", "own PSBT reader finds another number of maps than the builder wrote", {"maps": len(a), "nin": rec["nin"], "nout": rec["nout"]}, rec["case"])
+        if a != b:
             diff = []
             for i, (x, y) in enumerate(zip(a, b)):
                 for k in set(x) | set(y):
                     if x.get(k) != y.get(k):
-                        diff.append([i, k.hex() if isinstance(k, bytes) else k, (x.get(k) or b"").hex()[:80] if k in x else None, (y.get(k) or b"").hex()[:80] if k in y else None])
+                        diff.append([i, k.hex(), x[k].hex()[:80] if k in x else None, y[k].hex()[:80] if k in y else None])
             st.violation("psbt-reencode-changes-records", "re-encoding a canonical PSBT changes its set of records (independent map parser)",
                          {"diff": diff[:10], "psbt": rec["psbt"][:2000]}, rec["case"])
     if rec["case"] % 1499 == 0:
